@@ -67,7 +67,7 @@ Definition chk_pm sfx a b (out : result (list cell)) : nat :=
                    && (kinds_clash a b || existsb (fun c => (2 <=? length (pm_matches c b))%nat) a)
         end).
 """
-FALLBACK = ("From Bermuda Require Import Model.Base Model.Select Model.Join.\n"
+FALLBACK = ("From Bermuda Require Import Model.Base Model.Select Model.Join.\nImport ListNotations.\n"
             "Definition gen_join : join_desc := mkJoinDesc [KMeta; KPs; KPe; KEv] [KMeta; KPs; KPe; KEv; KPrev] "
             "SUnion expected_join_table.\n"
             "Definition gen_merge : merge_desc := mkMergeDesc true true [KMeta; KPs; KPe; KEv] true.\n")
